@@ -1,6 +1,7 @@
 package props
 
 import (
+	"strings"
 	"context"
 	"errors"
 	"fmt"
@@ -29,6 +30,7 @@ func c17(tier string) []*explore.Scenario {
 	for _, dial := range []string{"fails", "succeeds", "pending"} {
 		out = append(out, c17AttachDuringDial("C17", dial, bound))
 	}
+	out = append(out, c17OpSeqs("C17", tier)...)
 	for _, traffic := range []int{0, 1, 2} {
 		out = append(out, c17DeadOnAttach(traffic, bound+3-traffic))
 	}
@@ -527,4 +529,155 @@ func countStr(l []string, s string) int {
 		}
 	}
 	return n
+}
+
+var c17Ops = []string{"send:b", "send:c", "attach:b", "attach:c", "fail-current:b", "fail-replaced:b", "fail-current:c"}
+
+func c17OpSeqs(prop, tier string) []*explore.Scenario {
+	n := 5
+	if tier == "thorough" {
+		n = 7
+	}
+	var out []*explore.Scenario
+	for first := range c17Ops {
+		out = append(out, c17OpSeq(prop, first, n))
+	}
+	return out
+}
+
+// c17OpSeq: every sequence (first operation fixed per scenario) of proxy
+// operations - envelopes from a to b (attached) and to c (dialled on demand),
+// b or c attaching again under their names, the current or a replaced
+// connection failing - against a reference model: an envelope goes exactly
+// once to the newest connection of its destination (dialling one if there is
+// none), every failed connection is reported, a never reports.
+func c17OpSeq(prop string, first, maxLen int) *explore.Scenario {
+	fam := prop + "/opseq"
+	return &explore.Scenario{
+		Name: fmt.Sprintf("%s/opseq/first=%s/len<=%d", prop, c17Ops[first], maxLen), Family: fam, Prop: prop, Bound: 0, MaxExecs: 3000000,
+		Run: func() {
+			t, peers := c17Env(16) // no pipe ever fills: nobody reads the peers' ends
+			vsched.Settle()
+			type conn struct {
+				p      *env.Pipe
+				name   string
+				failed bool
+			}
+			cur := map[string]*conn{"b": {p: peers["b"], name: "b"}}
+			var replaced []*conn // b's connections that were replaced while alive
+			fails := map[string]int{}
+			nconn := 0
+			newPipe := func(name string) *env.Pipe {
+				nconn++
+				return env.NewPipe(t.Tap, env.PipeOpts{Name: fmt.Sprintf("%s#%d", name, nconn), Cap: 16})
+			}
+			count := func(wire string, id uint64) int {
+				n := 0
+				for _, e := range t.Tap.Events {
+					if e.Wire == wire && e.Rpc.GetId() == id && e.Rpc.GetHeader().GetSource() == "a" {
+						n++
+					}
+				}
+				return n
+			}
+			seq := ""
+			nextID := uint64(100)
+			for pos := 0; pos < maxLen; pos++ {
+				op := first
+				if pos > 0 {
+					c := vsched.Choose(len(c17Ops) + 1)
+					if c == len(c17Ops) {
+						break
+					}
+					op = c
+				}
+				name := c17Ops[op]
+				seq += " " + name
+				arg := name[strings.Index(name, ":")+1:]
+				switch {
+				case strings.HasPrefix(name, "send:"):
+					var dialPipe *env.Pipe
+					if cur[arg] == nil {
+						dialPipe = newPipe(arg + "-dialled")
+						t.Extra[arg] = dialPipe
+					}
+					dialsBefore := countStr(t.Dialed, arg)
+					id := nextID
+					nextID++
+					peers["a"].A.Inject(c17Msg(id, "a", arg))
+					vsched.Quiesce()
+					if dialPipe != nil {
+						if countStr(t.Dialed, arg) != dialsBefore+1 {
+							vsched.Fail(fam+"|not-dialled", "after%s: %s has no connection, but the proxy dialled it %d times for envelope %d", seq, arg, countStr(t.Dialed, arg)-dialsBefore, id)
+							return
+						}
+						cur[arg] = &conn{p: dialPipe, name: arg}
+					} else if countStr(t.Dialed, arg) != dialsBefore {
+						vsched.Fail(fam+"|dialled-despite-connection", "after%s: %s has a live connection (%s) but the proxy dialled it", seq, arg, cur[arg].p.Opts.Name)
+					}
+					if n := count(cur[arg].p.Opts.Name, id); n != 1 {
+						others := ""
+						for _, e := range t.Tap.Events {
+							if e.Rpc.GetId() == id && e.Wire != "a" {
+								others += " " + e.Wire
+							}
+						}
+						vsched.Fail(fam+"|delivery", "after%s: envelope %d for %s reached its newest connection %s %d times (seen on:%s)", seq, id, arg, cur[arg].p.Opts.Name, n, others)
+						return
+					}
+				case strings.HasPrefix(name, "attach:"):
+					np := newPipe(arg)
+					if old := cur[arg]; old != nil {
+						replaced = append(replaced, old)
+					}
+					t.Proxy.AddClient(arg, np.B)
+					cur[arg] = &conn{p: np, name: arg}
+					vsched.Quiesce()
+				case name == "fail-current:b", name == "fail-current:c":
+					c := cur[arg]
+					if c == nil {
+						continue
+					}
+					c.failed = true
+					c.p.A.Break()
+					c.p.B.Break()
+					fails[arg]++
+					delete(cur, arg)
+					vsched.Quiesce()
+				case name == "fail-replaced:b":
+					var c *conn
+					for _, r := range replaced {
+						if r.name == "b" && !r.failed {
+							c = r
+							break
+						}
+					}
+					if c == nil {
+						continue
+					}
+					c.failed = true
+					c.p.A.Break()
+					c.p.B.Break()
+					fails["b"]++
+					vsched.Quiesce()
+				}
+				for _, n := range []string{"b", "c"} {
+					if got := countStr(t.Disconnects, n); got < fails[n] {
+						vsched.Fail(fam+"|no-disconnect-report", "after%s: %d connections of %s have failed, %d reports reached the disconnect callback", seq, fails[n], n, got)
+						return
+					}
+				}
+				if countStr(t.Disconnects, "a") > 0 {
+					vsched.Fail(fam+"|healthy-peer-reported", "after%s: the healthy peer a was reported as disconnected", seq)
+					return
+				}
+			}
+			vsched.Obs("seq:%s | dialed=%v disconnects=%v", seq, t.Dialed, t.Disconnects)
+			t.Cancel()
+			vsched.Quiesce()
+			if ts := vsched.Threads(); len(ts) > 0 {
+				vsched.Fail(fam+"|goroutine-leak", "after%s and cancelling the proxy: goroutines remain: %s", seq, threadList())
+			}
+		},
+	}
 }
